@@ -664,6 +664,8 @@ class BufferByteArray(XBuffer):
 
     def update_from_native(self, offset, source, source_offset, nbytes):
         """Copy data from native buffer into self.buffer starting from offset"""
+        if isinstance(source, np.ndarray):  # native buffer of BufferNumpy
+            source = memoryview(source).cast("B")
         self.buffer[offset : offset + nbytes] = source[
             source_offset : source_offset + nbytes
         ]
